@@ -176,6 +176,19 @@ func c10GenPhase(r *Rng, nmsg int, noEdits bool) c10Phase {
 					continue
 				}
 				ver++
+				if r.Chance(1, 3) {
+					// an incremental change that overwrites part of a name with text of the same length (overwrite mode, a
+					// one-letter rename): line 0 reads `local cfg<n>_<v> = {` and line 1 `function GApi<n>(a, b)` in every version
+					// (the replacement of the six bytes `cfg<n>_<v>` moves token boundaries: an answer assembled from the old
+					// analysis and the new bytes shows a name - "c,d,e0" - that no state of the document has)
+					rg, txt := Range{Position{0, 6}, Position{0, 12}}, r.Pick([]string{"c,d,e0", "cfgx_0", "a,bb,c"})
+					if r.Bool() {
+						rg, txt = Range{Position{1, 9}, Position{1, 13}}, r.Pick([]string{"GApi", "GApj", "GApk"})
+					}
+					addMut("didChangeRange", "textDocument/didChange", map[string]interface{}{"textDocument": map[string]interface{}{"uri": uri(rel), "version": ver},
+						"contentChanges": []interface{}{map[string]interface{}{"range": rg, "text": txt}}})
+					continue
+				}
 				vs := c10Versions(fi)
 				txt := vs[r.Intn(len(vs))]
 				addMut("didChange", "textDocument/didChange", map[string]interface{}{"textDocument": map[string]interface{}{"uri": uri(rel), "version": ver},
@@ -268,6 +281,13 @@ func c10GenPhase(r *Rng, nmsg int, noEdits bool) c10Phase {
 		}
 		b, _ := json.Marshal(params)
 		ph.Msgs = append(ph.Msgs, c10Msg{Kind: strings.TrimPrefix(strings.TrimPrefix(m, "textDocument/"), "luahelper/"), Method: m, Params: params, QKey: m + "|" + string(b)})
+		// a name-carrying request directly followed by an overwrite of the same length in the same document (typing in
+		// overwrite mode right after the outline was requested): the edit must not reach into the answer under way
+		if !noEdits && (m == "textDocument/documentSymbol" || m == "textDocument/completion" || m == "workspace/symbol") && open[rel] && r.Chance(1, 2) {
+			ver++
+			addMut("didChangeRange", "textDocument/didChange", map[string]interface{}{"textDocument": map[string]interface{}{"uri": uri(rel), "version": ver},
+				"contentChanges": []interface{}{map[string]interface{}{"range": Range{Position{0, 6}, Position{0, 12}}, "text": r.Pick([]string{"c,d,e0", "cfgx_0", "a,bb,c"})}}})
+		}
 	}
 	return ph
 }
